@@ -53,6 +53,9 @@ TEMPLATES = ["{{ semver }}", "{{ pep440 }}", "{{ major }}.{{ minor }}", "{{ bump
              "{{ format_timestamp(value=bumped_timestamp, format=\"%Q\") }}", "{{ format_timestamp(value=1, format=\"%\") }}",
              "{{ format_timestamp(value=99999999999999999) }}", "{{ hash_int(value=bumped_branch, length=0) }}", "{{ hash_int(value='x', length=30) }}",
              "{{ hash_int(value='x', length=1000000, allow_leading_zero=true) }}", "{{ hash(value='x', length=17) }}", "{{ hash(value='x', length=0) }}",
+             "{{ hash(value=bumped_branch, length=16) }}", "{{ hash(value=bumped_branch, length=15) }}.{{ hash(value=bumped_commit_hash, length=64) }}",
+             "{{ hash(value=custom, length=20) }}", "{{ hash_int(value=bumped_branch, length=19) }}-{{ hash_int(value=bumped_branch, length=20) }}-{{ hash_int(value=bumped_branch, length=21, allow_leading_zero=true) }}",
+             "{{ prefix(value=bumped_branch, length=4294967296) }}", "{{ prefix(value=semver, length=0) }}", "{{ sanitize(value=bumped_branch, max_length=0) }}",
              "{{ prefix(value='ééééé', length=3) }}", "{{ prefix_if(value=post) }}", "{{ missing }}", "{{ 1 / 0 }}", "{% if %}", "{{", "}}", "{{ semver",
              "{{ custom.a.b.c }}", "{{ sanitize(value=bumped_branch, preset='nope') }}", "{{ sanitize(value=1, preset='uint', separator='x') }}", "none", "NULL",
              "", "   ", "{{ semver }}\n{{ pep440 }}", "{{ 99999999999999999999 }}", "{{ major + 18446744073709551615 }}", "{% set x = major %}{{ x }}",
@@ -323,6 +326,38 @@ def work_faults(bins, seed, idx, tmp):
                                 bad.append(("stdout-not-single-line", "[git call %d fails with %s] stdout %r" % (k, mode, body[:200]), case))
                     else:
                         st["fault_exit_nonzero"] += 1
+        # special repository layouts: the result must still be the only thing on stdout
+        import subprocess as _sp
+        genv = gitmodel.git_env(home)
+        repo.clean()
+        if not repo.tags_at(repo.head_cid()):
+            repo.tag("v9.9.9")
+        layouts = []
+        shallow = os.path.join(home, "shallow")
+        if _sp.run([core.REAL_GIT, "clone", "-q", "--depth", "1", "file://" + path, shallow], env=genv, capture_output=True).returncode == 0:
+            layouts.append(("shallow-clone", shallow))
+            st["shallow_file_present"] = st.get("shallow_file_present", 0) + (1 if os.path.exists(os.path.join(shallow, ".git", "shallow")) else 0)
+        shallow2 = os.path.join(home, "shallow-notags")
+        if _sp.run([core.REAL_GIT, "clone", "-q", "--depth", "1", "--no-tags", "file://" + path, shallow2], env=genv, capture_output=True).returncode == 0:
+            layouts.append(("shallow-clone-no-tags", shallow2))
+        wt = os.path.join(home, "linked-worktree")
+        if _sp.run([core.REAL_GIT, "-C", path, "worktree", "add", "-q", "--detach", wt], env=genv, capture_output=True).returncode == 0:
+            layouts.append(("linked-worktree", wt))
+        for name, d in layouts:
+            for cmd in (["version"], ["flow"], ["version", "-v"], ["flow", "--output-format", "pep440"]):
+                r = core.run_zerv(bins, cmd + ["-C", d], env=core.base_env(bins, home=home))
+                st["fault_runs"] += 1
+                st["layout:" + name] = st.get("layout:" + name, 0) + 1
+                case = dict(kind="layout", name=name, cmd=cmd, seed=seed, idx=idx)
+                for sig, why in judge(r, cmd):
+                    bad.append((sig, "[%s] %s" % (name, why), case))
+                if r["exit"] == 0:
+                    body = r["out"]
+                    line = body[:-1] if body.endswith("\n") else body
+                    from ..refs import pep440 as _P
+                    okv = (_P.parse(line) is not None) if "pep440" in cmd else (S.parse(line, allow_v=False) is not None)
+                    if body.count("\n") != 1 or not okv:
+                        bad.append(("stdout-not-only-the-result", "[%s] `%s` printed %r" % (name, " ".join(cmd), body[:200]), case))
         # environment-level faults
         envs = [("git-missing", core.base_env(bins, home=home, extra={"PATH": os.path.join(home, "emptybin")}), path),
                 ("not-a-repository", core.base_env(bins, home=home), home),
